@@ -60,7 +60,7 @@ func (m *Mutex) Unlock() {
 	// preempted before its next synchronisation operation (exposes accesses moved
 	// out of the critical section)
 	if r := rt.Cur(); r != nil {
-		r.Point(rt.Op{Kind: "mutex.unlock", Obj: &m.o})
+		r.Point(rt.Op{Kind: "mutex.unlock", Obj: &m.o, Release: true})
 	}
 }
 
@@ -99,7 +99,7 @@ func (m *RWMutex) Unlock() {
 	}
 	m.writer = false
 	if r := rt.Cur(); r != nil {
-		r.Point(rt.Op{Kind: "rw.unlock", Obj: &m.o})
+		r.Point(rt.Op{Kind: "rw.unlock", Obj: &m.o, Release: true})
 	}
 }
 
@@ -125,7 +125,7 @@ func (m *RWMutex) RUnlock() {
 	}
 	m.readers--
 	if r := rt.Cur(); r != nil {
-		r.Point(rt.Op{Kind: "rw.runlock", Obj: &m.o})
+		r.Point(rt.Op{Kind: "rw.runlock", Obj: &m.o, Release: true})
 	}
 }
 
@@ -191,6 +191,9 @@ func (o *Once) Do(f func()) {
 	defer func() {
 		o.done = true
 		o.running = false
+		if r := rt.Cur(); r != nil { // what f did happens before every later Do returns
+			r.TouchHB("once.done", &o.o)
+		}
 	}()
 	f()
 }
